@@ -239,7 +239,8 @@ def extract(ctx):
         for n in ast.walk(w.test):
             if isinstance(n, ast.Compare) and len(n.ops) == 1 and isinstance(n.comparators[0], ast.Name) and n.comparators[0].id == 'level':
                 ops.append(type(n.ops[0]).__name__)
-    fl['toms_loops_level'] = (len(ws) == 2 and ops == ['Lt', 'Gt'])
+    fl['toms_loops_level'] = (len(ws) == 2 and ops in (['Lt', 'Gt'], ['Lt', 'GtE']))
+    upper_ge = ops[1:] == ['GtE']
     # linear_grid_scan: _interp(level, ...)
     ic = _calls(grid, '_interp')
     fl['grid_interp_level'] = bool(ic) and all(c.args and isinstance(c.args[0], ast.Name) and c.args[0].id == 'level' for c in ic)
@@ -263,11 +264,13 @@ def extract(ctx):
     txt += 'Definition dep_ul_starkw : list string := %s.\n' % facts.coq_strlist(dstar)
     for nm, d in (('grid', gd), ('toms', td), ('ul', ud)):
         txt += 'Definition %s_level_default : Z * positive := (%d%%Z, %d%%positive).\n' % (nm, d.numerator, d.denominator)
+    txt += 'Definition toms_upper_loop_ge : bool := %s.\n' % core.cbool(upper_ge)
     txt += 'Definition level_use_facts : list (string * bool) := [%s].\n' % '; '.join(
         '(%s, %s)' % (core.cstr(k), core.cbool(v)) for k, v in fl.items())
     facts.write_gen('FactsC09', txt)
     return dict(grid_bind=gb, toms_bind=tb, deprecated_alias_bind=db, star_kwargs=dict(grid=gstar, toms=tstar, alias=dstar),
-                level_defaults=dict(grid=str(gd), toms=str(td), upper_limit=str(ud)), level_use=fl)
+                level_defaults=dict(grid=str(gd), toms=str(td), upper_limit=str(ud)), level_use=fl,
+                upper_extension_loop='>=' if upper_ge else '>')
 
 
 
@@ -411,6 +414,9 @@ def check_property(case, res):
     level = core.frac(case['level'])
     curves = [tuple(c) for c in case['curves']]
     if not res['ok']:
+        if mode == 'auto' and res['exc'] == 'PyValueError' and 'empty sequence' in (res.get('msg') or ''):
+            return [('auto-exact-hit-upper-bound', 'automatic scan raised "%s": a CLs curve equals the level exactly at the final upper bound, '
+                     'no strictly negative bracket end exists for it (C09_auto_scan_exact_hit_refuted)' % res.get('msg'))]
         return [('exception:%s:%s' % (mode, res['exc']), 'upper_limit raised %s: %s' % (res['exc'], res.get('msg')))]
     want = 3 if case.get('return_results', True) else 2
     if res['nret'] != want:
@@ -513,16 +519,17 @@ Definition out (o : option (scan_out QcNum)) :=
   | Some s => (1%%Z, qouts (so_obs s :: so_exp s), qouts (so_points s), map (fun ab => [qout (fst ab); qout (snd ab)]) (so_brackets s))
   end.
 Definition grid_case tbl scan level :=
-  out (@upper_limit QcNum (Hq tbl) no_toms ul_grid_bind ul_toms_bind (dq grid_level_default) (dq toms_level_default) 64 (0%%Qc, 0%%Qc) (Some scan) level).
+  out (@upper_limit QcNum (Hq tbl) no_toms toms_upper_loop_ge ul_grid_bind ul_toms_bind (dq grid_level_default) (dq toms_level_default) 64 (0%%Qc, 0%%Qc) (Some scan) level).
 Definition auto_case tbl (rec : list (list Qc * Qc)) lo up level :=
-  out (@upper_limit QcNum (Hq tbl) (fun k g a b => nth k rec ([], 0%%Qc)) ul_grid_bind ul_toms_bind (dq grid_level_default) (dq toms_level_default) 64 (lo, up) None level).
+  out (@upper_limit QcNum (Hq tbl) (fun k g a b => nth k rec ([], 0%%Qc)) toms_upper_loop_ge ul_grid_bind ul_toms_bind (dq grid_level_default) (dq toms_level_default) 64 (lo, up) None level).
 '''
 HEADER = HEADER_COMMON % (' PV.gen.FactsC09', '')
 # when the facts cannot be extracted the model is still run, with the forwarding the property demands written out
 HEADER_NOFACTS = HEADER_COMMON % ('', '''Definition ul_grid_bind := [("level", "param:level")].
 Definition ul_toms_bind := [("level", "param:level")].
 Definition grid_level_default : Z * positive := (1%Z, 20%positive).
-Definition toms_level_default : Z * positive := (1%Z, 20%positive).''')
+Definition toms_level_default : Z * positive := (1%Z, 20%positive).
+Definition toms_upper_loop_ge : bool := true.''')
 
 
 def hres(vals):
